@@ -201,6 +201,65 @@ def check_fixed(c):
     return fails
 
 
+def check_end_kinds(c):
+    """The end behaviour belongs to the kind of end (X-point or wall), not to its position:
+    for the same options, length and sizes, every X-point end of wall.X / X.wall / X.X regions
+    must start with the same spacing (in index units), likewise every wall end of wall.X /
+    X.wall / wall.wall - this is what makes the spacing continuous across X-point joins."""
+    opts = {
+        "orthogonal": True,
+        "poloidal_spacing_method": c["method"],
+        "y_boundary_guards": 0,
+        "xpoint_poloidal_spacing_length": c["x_len"],
+        "target_all_poloidal_spacing_length": c["t_len"],
+    }
+    if c.get("nonorth_lengths"):
+        opts["nonorthogonal_xpoint_poloidal_spacing_length"] = c["nonorth_lengths"][0]
+        opts["nonorthogonal_target_all_poloidal_spacing_length"] = c["nonorth_lengths"][1]
+    ny, N, L = c["ny"], 2 * c["ny"], c["L"]
+    ends = {"X": [], "wall": []}
+    e = 1e-3
+    with quiet_stdio(), numpy.errstate(all="ignore"), warnings.catch_warnings():
+        warnings.simplefilter("ignore")
+        import matplotlib.pyplot as plt
+
+        saved = plt.show
+        plt.show = lambda *a, **k: None
+        try:
+            for kind in ("wall.X", "X.wall", "X.X", "wall.wall"):
+                reg = region(kind, ny, c["ny_total"], opts)
+                try:
+                    f = reg.getSfuncFixedSpacing(N + 1, L)
+                except ValueError:
+                    continue
+                lo = (float(f(e)) - float(f(0.0))) / e
+                hi = (float(f(float(N))) - float(f(N - e))) / e
+                k_lo, k_hi = kind.split(".")
+                ends[k_lo].append((kind + ":lower", lo))
+                ends[k_hi].append((kind + ":upper", hi))
+        finally:
+            plt.show = saved
+            plt.close("all")
+    fails = []
+    c["_n_ends"] = len(ends["X"]) + len(ends["wall"])
+    for typ, vals in ends.items():
+        if len(vals) < 2:
+            continue
+        v = numpy.array([x[1] for x in vals])
+        if v.min() <= 0:
+            continue
+        spread = float(v.max() / v.min())
+        if spread > 1.05:
+            fails.append(
+                (
+                    "C10/end-spacing-depends-on-position-not-kind/%s-ends/%s" % (typ, c["method"]),
+                    {"initial_spacing_per_index": {k: float(x) for k, x in vals}, "ratio_max_min": spread},
+                    {},
+                )
+            )
+    return fails
+
+
 def strategies():
     from hypothesis import strategies as st
 
@@ -263,12 +322,27 @@ def strategies():
             "prefactor": draw(st.sampled_from([1.0, 1.0, 0.5, 2.0])),
         }
 
-    return direct(), xcont(), fixed()
+    @st.composite
+    def endkinds(draw):
+        ny = draw(st.integers(3, 40))
+        c = {
+            "method": draw(st.sampled_from(["sqrt", "monotonic"])),
+            "ny": ny,
+            "ny_total": ny * draw(st.sampled_from([1, 3, 6])),
+            "L": draw(lg(-1, 1)),
+            "x_len": draw(lg(-2, 0)),
+            "t_len": draw(lg(-2, 0)),
+        }
+        if draw(st.booleans()):
+            c["nonorth_lengths"] = [draw(lg(-2, 0)), draw(lg(-2, 0))]
+        return c
+
+    return direct(), xcont(), fixed(), endkinds()
 
 
 def shard(kind, seed, n):
     res = ShardResult()
-    d, x, f = strategies()
+    d, x, f, ek = strategies()
     if kind == "direct":
         hyp_search(
             "C10", d, check_direct, seed=seed, max_examples=n, result=res,
@@ -278,6 +352,10 @@ def shard(kind, seed, n):
     elif kind == "xcont":
         hyp_search("C10", x, check_xpoint_continuity, seed=seed, max_examples=n, result=res,
                    nontrivial=lambda c: not c.get("_refused"), label=lambda c: ["xpoint-continuity/" + ("refused" if c.pop("_refused", False) else "checked")])
+    elif kind == "endkinds":
+        hyp_search("C10", ek, check_end_kinds, seed=seed, max_examples=n, result=res,
+                   nontrivial=lambda c: c.get("_n_ends", 0) >= 4,
+                   label=lambda c: ["end-kinds/%s/ends-compared=%d" % (c["method"], c.pop("_n_ends", 0))])
     else:
         hyp_search(
             "C10", f, check_fixed, seed=seed, max_examples=n, result=res,
@@ -343,6 +421,7 @@ def run(run):
     jobs = [dict(kind="direct", seed=run.seed * 100 + i, n=150 if q else 3000) for i in range(6)]
     jobs += [dict(kind="fixed", seed=run.seed * 100 + 20 + i, n=100 if q else 2000) for i in range(6)]
     jobs += [dict(kind="xcont", seed=run.seed * 100 + 40 + i, n=100 if q else 1500) for i in range(2)]
+    jobs += [dict(kind="endkinds", seed=run.seed * 100 + 60 + i, n=80 if q else 1200) for i in range(2)]
     for r in run_shards("vf.props.c10", "shard", jobs):
         run.merge_shard(r)
     doubling_pairs(run)
@@ -365,6 +444,8 @@ def replay(run, payload):
         fails = check_fixed(case)
     elif "xpoint-join" in b:
         fails = check_xpoint_continuity(case)
+    elif "end-spacing" in b:
+        fails = check_end_kinds(case)
     else:
         fails = check_direct(case)
     for bb, d, lab in fails:
